@@ -27,7 +27,9 @@ func checkC03(c *Ctx) {
 	// the embedded signature identifies its signer and verifies: the emitter rules of C05
 	checkC05(c)
 	// the signatures read back from an image are distinct objects
-	c.ruleLoopAlias("M6.distinct", func(f *ssa.Function) bool { return strings.HasPrefix(name(f), "authenticode.") || strings.HasPrefix(name(f), "(*authenticode.") })
+	c.ruleLoopAlias("M6.distinct", func(f *ssa.Function) bool {
+		return strings.HasPrefix(name(f), "authenticode.") || strings.HasPrefix(name(f), "(*authenticode.")
+	})
 	c.R.Floor("M6.distinct", 1)
 	fn := c.Fn("M", "authenticode.(*PECOFFBinary).AppendSignature")
 	if fn == nil {
